@@ -1,4 +1,5 @@
 import Ibx.Gen.Pop3
+import Ibx.Gen.Pop3Share
 import Ibx.Model.Pop3Conc
 /-
   T1 tie for the concurrent POP3 model (C13 / C19): `Model.Pop3Conc.processDeletes` runs the deletion loop in the variant
@@ -39,5 +40,53 @@ theorem quit_runs_delete_loop_tie : Gen.Pop3.quitRowStore = ["RemoveMessage"] :=
     another command, not from the command loop's exits, not from a function the loop cannot reach) -/
 theorem remove_only_from_quit_tie :
     Gen.Pop3.storeReach.filter (fun t => t.2.2 == "RemoveMessage") = [("TRANSACTION", "QUIT", "RemoveMessage")] := by decide
+
+/-! ### what one POP3 session can share with another (facts of Ibx/Gen/Pop3Share.lean, found by role like those of the SMTP
+    server: server type = receiver of the function that calls Accept(), session type = the struct embedding it, session
+    code = what the accept loop's go statement runs and all it reaches — harness/cmd/extract/smtpconc.go)
+
+  `Model.Pop3Conc` gives a session step the session's own state, its pending input and the store, and nothing else: a
+  session starts from `Pop3.init` whatever earlier sessions of the same server did, and no session sees another's
+  snapshot, marks or write error.  That is true of the source because every field of the session literal comes from the
+  constructor's parameters, a fresh allocation, a constant or the configuration, no package-level variable is written
+  after initialisation, and the ONE server field that is assigned outside the constructor and read by sessions is the TLS
+  state (`TlsScope.perServer` of `Model.Pop3`: STLS works once per server — modelled as the source has it).  A free list
+  of finished Session objects (seeded change C13-r9m2), a shared scratch buffer or a package-level cache changes these
+  facts. -/
+
+/-- verdicts of a package-level variable under which sessions cannot influence each other through it -/
+def harmlessVar (v : String) : Bool :=
+  ["regexp", "readOnlyTable", "constant", "metricWriteOnly", "notReachedFromSessions"].contains v
+
+/-- sources of a session field under which the value is the session's own (or immutable configuration) -/
+def privateSource (v : String) : Bool := ["server", "param", "fresh", "config", "const"].contains v
+
+/-- the roles were found in pkg/server/pop3 -/
+theorem pop3_roles_found_tie : Gen.Pop3Share.sessionFunctions.isEmpty = false := by decide
+
+/-- no package-level variable of pkg/server/pop3 is written after initialisation or handed to sessions by reference -/
+theorem pop3_package_variables_tie : Gen.Pop3Share.pkgVars.all (fun p => harmlessVar p.2) = true := by decide
+
+/-- every session starts from a state of its own: each field of the one session literal comes from the constructor's
+    parameters, a fresh allocation, a constant, the configuration, or is the server pointer -/
+theorem pop3_session_fields_tie :
+    Gen.Pop3Share.sessionInit.map (fun l => l.all (fun p => privateSource p.2)) = some true := by decide
+
+/-- what two sessions share through the server is immutable after NewServer, except the TLS state (per server in the
+    source and in the model: `TlsScope.perServer`) -/
+theorem pop3_server_fields_tie : Gen.Pop3Share.serverFieldsSharedMutable = some ["tlsState"] := by decide
+
+/-- session code has no select, channel operation or go statement and no context: a session can neither see the
+    cancellation nor hand anything to a later session through a channel -/
+theorem pop3_session_has_no_channel_tie :
+    Gen.Pop3Share.sessionChanOps = some 0 ∧ Gen.Pop3Share.sessionReachesCtx = some false := by decide
+
+/-- **POP3 sessions share nothing but the store and the server's TLS state** -/
+theorem pop3_sessions_share_nothing_tie :
+    Gen.Pop3Share.pkgVars.all (fun p => harmlessVar p.2) = true ∧
+    Gen.Pop3Share.sessionInit.map (fun l => l.all (fun p => privateSource p.2)) = some true ∧
+    Gen.Pop3Share.serverFieldsSharedMutable = some ["tlsState"] ∧
+    Gen.Pop3Share.sessionChanOps = some 0 :=
+  ⟨pop3_package_variables_tie, pop3_session_fields_tie, pop3_server_fields_tie, pop3_session_has_no_channel_tie.1⟩
 
 end Ibx.Tie.Pop3Conc
